@@ -150,6 +150,12 @@ static int ibuf_pos, ibuf_cnt;	/* ibuf[] position and length */
 static int icmd_pos;		/* icmd[] position */
 
 /* read s before reading from the terminal */
+/* the number of bytes term_push() can still take */
+int term_pushroom(void)
+{
+	return sizeof(ibuf) - (ibuf_cnt - ibuf_pos);
+}
+
 void term_push(char *s, int n)
 {
 	if (ibuf_pos > 0) {		/* drop what has been read already */
